@@ -227,7 +227,7 @@ def real_events(run: Run, count: int) -> list[dict[str, Any]]:
                     set_libsecp256k1_serving(serving=arm)
                 tag = f"{name}|{'bindings' if (arm and ec == secp256k1) else 'python'}"
                 for i in range(reps):
-                    hname = "sha256" if (ec == secp256k1 and i % 3 != 2) else rnd.choice(list(HFS))
+                    hname = "sha256" if (ec == secp256k1 and i % 3 != 2) else list(HFS)[(i // 3 if ec == secp256k1 else i) % len(HFS)]      # every digest length on every curve
                     hf = HFS[hname]
                     hl = hf().digest_size
                     d = rnd.choice([1, 2, ec.n - 1, rnd.randrange(1, ec.n), rnd.randrange(1, ec.n)])
@@ -263,11 +263,13 @@ def real_events(run: Run, count: int) -> list[dict[str, Any]]:
                                 run.violation(f"ssa|real|verify_|negative key accepted|{name}", f"verify_ answered {o} for the negative key {xx} on {name}", {"op": "verify_", "curve": name})
                             continue
                         evs.append({"op": "verify", "tag": tag, "c": c, "hf": hname, "x": nat(xx), "m": mm.hex(), "r": nat(rr), "s": nat(ss), "out": o})
-                    if i % 5 == 1:
+                    if i % 5 == 1 or (i < 6 and ec != secp256k1):
                         # sign-to-contract: an ordinary BIP340 signature whose commitment opens, and only for the committed value
                         ch = rnd.randbytes(32)
                         try:
                             sg2, receipt = ssa.sign_(m, d, aux, ec, hf, commit_hash=ch)
+                            evs.append({"op": "s2c", "tag": tag, "c": c, "hf": hname, "sk": nat(d), "m": m.hex(), "aux": aux.hex(), "value": ch.hex(), "out": sg2.serialize().hex(),
+                                        "receipt": {"x": nat(receipt[0]), "y": nat(receipt[1])}})
                             evs.append({"op": "verify", "fn": "sign_(commit_hash)", "tag": tag, "c": c, "hf": hname, "x": nat(x), "m": m.hex(), "r": nat(sg2.r), "s": nat(sg2.s), "out": True})
                             opens = ssa.verify_(m, x, sg2, hf, commit_hash=ch, receipt=receipt)
                             other = ssa.verify_(m, x, sg2, hf, commit_hash=bytes(32), receipt=receipt)
